@@ -38,4 +38,11 @@ end Bytes
 /-- ASCII literal → bytes, usable in theorem statements (`b!"0x"`-style is overkill; plain fn). -/
 def str (s : String) : Bytes := s.toList.map Char.toNat
 
+/-- Byte-wise lexical order (Go string comparison). -/
+def bytesLt : Bytes → Bytes → Bool
+  | [], [] => false
+  | [], _ :: _ => true
+  | _ :: _, [] => false
+  | a :: as, b :: bs => if a < b then true else if a > b then false else bytesLt as bs
+
 end Miller
